@@ -242,13 +242,13 @@ Proof.
     + intros ->. rewrite <- Hb. auto.
 Qed.
 
-Lemma conc_loop_ok k b so todo : forall a s,
+Lemma conc_loop_ok ls k b so todo : forall a s,
   typed s -> (forall f a', o_own (pv s f) <> WAt k a') -> (forall a', so <> WAt k a') ->
-  race_free obj_eqb (conc_loop k b so todo a s) = true /\
-  forall x, In x (accs (conc_loop k b so todo a s)) -> lfoot k so a s x.
+  race_free obj_eqb (conc_loop ls k b so todo a s) = true /\
+  forall x, In x (accs (conc_loop ls k b so todo a s)) -> lfoot k so a s x.
 Proof.
   induction todo as [|n IH]; intros a s Hty Hna Hso.
-  - cbn [conc_loop]. split.
+  - cbn [conc_loop]. destruct ls; [|split; [reflexivity|intros x []]]. split.
     + rewrite race_free_cons_fork, race_free_map_Acc. cbn. apply no_conflict_nil_r.
     + intros x Hx. rewrite accs_cons_fork, accs_map_Acc, app_nil_r in Hx.
       pose proof (inner_foot (WAt k a) s s b (vrel_refl _ _)) as Hf. rewrite Forall_forall in Hf.
@@ -269,7 +269,7 @@ Proof.
       - rewrite Hpv'; [apply Hna|]. intros ->. discriminate. }
     destruct (IH (S a) s' Hty' Hna' Hso) as [IH1 IH2].
     (* footprint of the rest, expressed over s *)
-    assert (Hrest : forall x, In x (accs (conc_loop k b so n (S a) s')) ->
+    assert (Hrest : forall x, In x (accs (conc_loop ls k b so n (S a) s')) ->
               (exists a', S a <= a' /\ o_own (aobj x) = WAt k a') \/
               (o_own (aobj x) = so /\ o_fld (aobj x) = FBody) \/
               (exists f, aobj x = pv s f /\ (is_wr x = true -> f = FStruct \/ f = FBody) /\ (f = FBody -> has_body s = true))).
@@ -330,10 +330,10 @@ Proof. unfold rb_stage, wr. cbn. split; [reflexivity|]. apply has_body_vset_othe
 Lemma foot_bfoot k a so s x : foot (WAt k a) s x -> bfoot k so s x.
 Proof. intros [H|H]; [left; exists a; exact H|right; right; exact H]. Qed.
 
-Lemma branch_ok k so b s :
+Lemma branch_ok ls k so b s :
   typed s -> (forall f a', o_own (pv s f) <> WAt k a') -> (forall a', so <> WAt k a') ->
-  race_free obj_eqb (branch_prog k so b s) = true /\
-  forall x, In x (accs (branch_prog k so b s)) -> bfoot k so s x.
+  race_free obj_eqb (branch_prog ls k so b s) = true /\
+  forall x, In x (accs (branch_prog ls k so b s)) -> bfoot k so s x.
 Proof.
   intros Hty Hna Hso. unfold branch_prog.
   pose proof (rb_rel (WAt k 0) s s b (vrel_refl _ _)) as [Ha Hs1].
@@ -348,7 +348,7 @@ Proof.
   destruct (b_cc b) as [|[|n]]; [exact H01|exact H01|].
   assert (Hty1 : typed s1) by (intros f; rewrite Hpv; apply Hty).
   assert (Hna1 : forall f a', o_own (pv s1 f) <> WAt k a') by (intros f a'; rewrite Hpv; apply Hna).
-  destruct (conc_loop_ok k b so (S n) 0 s1 Hty1 Hna1 Hso) as [L1 L2].
+  destruct (conc_loop_ok ls k b so (if ls then S n else S (S n)) 0 s1 Hty1 Hna1 Hso) as [L1 L2].
   split.
   - rewrite race_free_app_acc. exact L1.
   - intros x Hx. rewrite accs_app, accs_map_Acc in Hx. apply in_app_or in Hx as [Hx|Hx].
@@ -425,10 +425,10 @@ Proof.
   split; [exact H2|]. rewrite H1. discriminate.
 Qed.
 
-Lemma merge_ok deep bs : forall k s,
+Lemma merge_ok ls deep bs : forall k s,
   typed s -> endp s -> (deep = false -> has_body s = false) ->
-  race_free obj_eqb (merge_loop deep bs k s) = true /\
-  forall x, In x (accs (merge_loop deep bs k s)) -> mfoot k x.
+  race_free obj_eqb (merge_loop ls deep bs k s) = true /\
+  forall x, In x (accs (merge_loop ls deep bs k s)) -> mfoot k x.
 Proof.
   induction bs as [|b r IH]; intros k s Hty Hend Hsc; [split; [reflexivity|intros x []]|].
   assert (Hwat : forall f a', o_own (pv s f) <> WAt k a') by (intros f a'; rewrite Hend; discriminate).
@@ -449,8 +449,8 @@ Proof.
     destruct (IH (S k) s' Hts Hend' ltac:(discriminate)) as [IH1 IH2].
     assert (Hnac : forall f a', o_own (pv c f) <> WAt k a').
     { intros f a'. destruct (Hco f) as [->| ->]; [discriminate|apply Hwat]. }
-    destruct (branch_ok k (WBr k) b c Htc Hnac Hso) as [B1 B2].
-    assert (Hchild : forall x, In x (accs (branch_prog k (WBr k) b c)) -> bclass k x).
+    destruct (branch_ok ls k (WBr k) b c Htc Hnac Hso) as [B1 B2].
+    assert (Hchild : forall x, In x (accs (branch_prog ls k (WBr k) b c)) -> bclass k x).
     { intros x Hx. destruct (B2 x Hx) as [[a' H]|[[H _]|[f (H1 & H2 & H3)]]].
       - left. unfold own_br. rewrite H. apply Nat.eqb_refl.
       - left. unfold own_br. rewrite H. apply Nat.eqb_refl.
@@ -480,8 +480,8 @@ Proof.
     assert (Htc : typed c) by (intros f; destruct f; cbn; auto; apply Hty).
     assert (Hnac : forall f a', o_own (pv c f) <> WAt k a').
     { intros f a'. destruct f; cbn; try discriminate; apply Hwat. }
-    destruct (branch_ok k (WBr k) b c Htc Hnac Hso) as [B1 B2].
-    assert (Hchild : forall x, In x (accs (branch_prog k (WBr k) b c)) -> bclass k x).
+    destruct (branch_ok ls k (WBr k) b c Htc Hnac Hso) as [B1 B2].
+    assert (Hchild : forall x, In x (accs (branch_prog ls k (WBr k) b c)) -> bclass k x).
     { intros x Hx. destruct (B2 x Hx) as [[a' H]|[[H _]|[f (H1 & H2 & H3)]]].
       - left. unfold own_br. rewrite H. apply Nat.eqb_refl.
       - left. unfold own_br. rewrite H. apply Nat.eqb_refl.
@@ -496,9 +496,9 @@ Proof.
         + specialize (H3 eq_refl). rewrite Hcb, Hsc in H3. discriminate. }
     split.
     + change (map Acc ([Rd (pv s FStruct)] ++ [Wr (Ob (WBr k) SMerge FStruct) (px s FStruct)]) ++
-              Fork (branch_prog k (WBr k) b c) :: merge_loop false r (S k) s)
+              Fork (branch_prog ls k (WBr k) b c) :: merge_loop ls false r (S k) s)
         with (map Acc [Rd (pv s FStruct); Wr (Ob (WBr k) SMerge FStruct) (px s FStruct)] ++
-              Fork (branch_prog k (WBr k) b c) :: merge_loop false r (S k) s).
+              Fork (branch_prog ls k (WBr k) b c) :: merge_loop ls false r (S k) s).
       rewrite race_free_app_acc, race_free_cons_fork, B1, IH1. cbn [andb].
       apply (merge_step_conflict k); auto.
     + intros x Hx. rewrite accs_app, accs_map_Acc, accs_cons_fork in Hx.
@@ -514,11 +514,15 @@ Qed.
 Lemma init_typed q : typed (init_pst q).
 Proof. intros f. reflexivity. Qed.
 
-Theorem all_configs cfg q : in_scope cfg q = true -> race_free_b cfg q = true.
+Theorem all_configs_gen ls cfg q :
+  in_scope cfg q = true -> race_free obj_eqb (endpoint_prog_gen ls cfg q) = true.
 Proof.
-  intros Hsc. unfold race_free_b, endpoint_prog.
+  intros Hsc. unfold endpoint_prog_gen.
   destruct cfg as [|b [|b' r]]; [reflexivity| |].
-  - apply (branch_ok 0 WEnd b (init_pst q)); [apply init_typed|intros; discriminate|intros; discriminate].
-  - apply (merge_ok (has_unsafe (b :: b' :: r)) (b :: b' :: r) 0 (init_pst q)); [apply init_typed|intros f; reflexivity|].
+  - apply (branch_ok ls 0 WEnd b (init_pst q)); [apply init_typed|intros; discriminate|intros; discriminate].
+  - apply (merge_ok ls (has_unsafe (b :: b' :: r)) (b :: b' :: r) 0 (init_pst q)); [apply init_typed|intros f; reflexivity|].
     intros Hd. unfold in_scope in Hsc. unfold has_body. cbn. destruct (q_body q); [congruence|reflexivity].
 Qed.
+
+Theorem all_configs cfg q : in_scope cfg q = true -> race_free_b cfg q = true.
+Proof. apply all_configs_gen. Qed.
